@@ -266,4 +266,6 @@ fn main() {
             std::process::exit(2);
         }
     }
+    // the scratch directory of the file-system cases (c07): every case removes its own files, the directory goes here
+    let _ = std::fs::remove_dir_all(std::env::temp_dir().join(format!("pdbtbx-verif-{}", std::process::id())));
 }
